@@ -1,8 +1,8 @@
 #!/usr/bin/env python3
-"""Round-5/6 seeding prompt: property text only plus a "where to look" twist (A indirect site, B two cooperating edits, C non-default configuration, D error or rare path, E other package, F declarations, G concurrency), so that changes differ from earlier rounds."""
+"""Round-5/6 seeding prompt: property text only plus a "where to look" twist (A indirect site, B two cooperating edits, C non-default configuration, D error or rare path, E other package, F declarations, G concurrency, I boundary, J error handling, K API misuse), so that changes differ from earlier rounds."""
 import json, sys
 pid, twist, root = sys.argv[1], sys.argv[2], sys.argv[3]
-TW={'E':'prefer a change in a different package or file than the one the property most obviously lives in (for example packet/, reader/, mirror/, producer/, the wiring in vflow/, or the twin of an ipfix function in netflow/v9 or vice versa)','F':'prefer a change to a type, a constant, a struct tag, a zero value, a declaration or the initialisation order rather than to a statement on the main decode path','G':'prefer a concurrency change: a lock scope, an atomic access replaced by a plain one (or the reverse done half-way), a goroutine or channel operation moved, a buffered channel made unbuffered or the reverse, shared state introduced between workers','A':'prefer NOT the most obvious site for this property: a helper it calls, a sibling implementation (the project has parallel ipfix / netflow v9 / netflow v5 / sflow code paths and three producers), a shared utility, a constant or data table, or start-up/shutdown wiring the behaviour depends on indirectly','B':'prefer a breakage made of two cooperating edits at different sites, each of which looks harmless (or even like an improvement) on its own','C':'prefer a breakage that manifests only under a non-default configuration, option combination or deployment (e.g. a feature that is off by default, several workers, a particular producer)','D':'prefer a breakage on an error path, a rarely taken branch, or a boundary value (empty, maximum, wrap-around), leaving the common path untouched'}
+TW={'I':'prefer an off-by-one or boundary mistake: a comparison operator, a loop bound, a slice bound, a constant that is one too small or too large, a width or shift amount','J':'prefer an error-handling mistake: an error that is ignored, swallowed, overwritten, given the wrong class (fatal vs non-fatal), or an early return/continue that skips a step that must still happen','K':'prefer a misuse of a standard-library or third-party API that still compiles: a wrong flag or mode, swapped arguments of the same type, a function with subtly different semantics (Write vs WriteString, Read vs ReadFull, Split vs SplitN, LittleEndian vs BigEndian, Unix vs UnixNano, Lock vs RLock)','E':'prefer a change in a different package or file than the one the property most obviously lives in (for example packet/, reader/, mirror/, producer/, the wiring in vflow/, or the twin of an ipfix function in netflow/v9 or vice versa)','F':'prefer a change to a type, a constant, a struct tag, a zero value, a declaration or the initialisation order rather than to a statement on the main decode path','G':'prefer a concurrency change: a lock scope, an atomic access replaced by a plain one (or the reverse done half-way), a goroutine or channel operation moved, a buffered channel made unbuffered or the reverse, shared state introduced between workers','A':'prefer NOT the most obvious site for this property: a helper it calls, a sibling implementation (the project has parallel ipfix / netflow v9 / netflow v5 / sflow code paths and three producers), a shared utility, a constant or data table, or start-up/shutdown wiring the behaviour depends on indirectly','B':'prefer a breakage made of two cooperating edits at different sites, each of which looks harmless (or even like an improvement) on its own','C':'prefer a breakage that manifests only under a non-default configuration, option combination or deployment (e.g. a feature that is off by default, several workers, a particular producer)','D':'prefer a breakage on an error path, a rarely taken branch, or a boundary value (empty, maximum, wrap-around), leaving the common path untouched'}
 for l in open('/verif/properties.jsonl'):
     p = json.loads(l)
     if p['id'] == pid:
